@@ -169,7 +169,6 @@ package diff
 //@   ensures[size]  err == nil ==> size == len(src) + ed_delta(arr(out, Start), arr(out, End), arr(out, New), off(out), len(out))
 //@   ensures[same]  err == nil ==> len(out) == len(edits)
 //@   ensures[nonneg] size >= 0
-//@   noframe
 //@   safe
 //@   property C22
 
